@@ -248,6 +248,8 @@ def run(args):
         rr = run_rt({"kind": "search", "contract_key": c.key, "mode": c.mode, "seed": seed,
                      "budget": 30000 if tier == "quick" else 400000, "repo_root": args.repo}, timeout=3000)
         replay_stats["search_cases"] += rr.get("tried", 0)
+        if rr.get("outcome") == "error":
+            crashes.append((f"replay search {c.key}", rr.get("detail", "")))
         if rr.get("outcome") == "violation":
             kf = match_known(open_findings, c.key, rr)
             if kf:
